@@ -70,13 +70,20 @@ def run(ctx) -> None:
     r08_6(ctx)
     from . import tooltables
     ctx.rule("R08.7", "tools leave a shared iterator where the stdlib tool would leave it: items taken per source in the tool tables (R05.11, shared)")
-    tooltables.tool_tables(Relabel(ctx, "R08.7"), "R08.7", ("yields", "items taken", "end"))
+    # (the order of requests and results included: a tool that asks for the next item before it has handed out the current one
+    # leaves the shared iterator one item further than the stdlib tool whenever it is abandoned there)
+    tooltables.tool_tables(Relabel(ctx, "R08.7"), "R08.7", ("yields", "items taken", "end", "interleaving"))
     ctx.rule("R08.8", "merge takes the next head of a source only after it has yielded the current one (R05.3, shared)")
     c05.r05_3(Relabel(ctx, "R08.8"))
     from . import c04, c16
     ctx.rule("R08.9", "a groupby group the parent has moved past ends without touching the shared iterator (R16.1, shared)")
     if c16.cursor_is_single_slot(ctx, "R08.9"):
         c16.r16_1_3_group(Relabel(ctx, "R08.9", only=("R16.1",)), c16.Names(ctx))
+    from . import c09
+    ctx.rule("R08.12", "a tee child that had to wait for the lock tests its buffer again before it advances the shared iterator: "
+                       "otherwise the handle is moved past an item that no child asked for, and the next tool starts one item late "
+                       "(R09.2, shared)")
+    c09.run(Relabel(ctx, "R08.12", only=("R09.2",)))
     ctx.rule("R08.10", "a finishing tee child unregisters its own buffer (by identity) and only the last one closes the shared "
                        "iterator (R04.5, shared)")
     c04.r04_5(Relabel(ctx, "R08.10"))
@@ -314,6 +321,13 @@ def r08_4(ctx) -> None:
     tests = [n for n in cfg.nodes if n.kind == "branch" and isinstance(n.ast, ast.Call) and norm(n.ast.func) == "hasattr"
              and len(n.ast.args) == 2 and isinstance(n.ast.args[1], ast.Constant) and n.ast.args[1].value == "aclose"]
     ctx.check(len(tests) == 1, "R08.4", u, "scoped_iter", "the outcome is selected by `hasattr(iterator, 'aclose')`")
+    for t in tests:
+        # ... asked of the iterator that the block will use (aiter(iterable)), not of the iterable it was made from: an
+        # iterable whose __aiter__ hands out a separate cursor object has no aclose itself, its cursor has
+        v = ctx.vals.expr(u, t.ast.args[0], t)
+        ok = bool(v) and all(a[0] == "iter" and a[1] == f"{u.short}:{p}" for a in v)
+        ctx.check(ok, "R08.4", u, t, "whether there is something to close is asked of aiter(iterable), the iterator the block uses",
+                  node=t, witness=str(sorted(v)))
     if tests and set(kinds) == {"null", "scoped"}:
         t = tests[0]
         from asl.flow import find_path
